@@ -86,7 +86,11 @@ class SimulatedExecutionEnvironment(ExecutionEnvironment):
         deterministic_problem = up.model.Problem(problem.name, problem.environment)
 
         for fluent in problem.fluents:
-            default_value = problem.initial_defaults.get(fluent.type, False)
+            # the per-fluent default (given to add_fluent, or derived from the per-type
+            # defaults when the fluent was added) wins over the per-type default
+            default_value = problem.fluents_defaults.get(
+                fluent, problem.initial_defaults.get(fluent.type, False)
+            )
             deterministic_problem.add_fluent(
                 fluent, default_initial_value=default_value
             )
